@@ -161,16 +161,21 @@ def direct_cases():
                              ('repeat', hdr, [P(v('L')), P(v('x'))]), P(v('x'))], pop))
                 out.append(([('repeat', hdr, [P(v('x')), ('assign', 'x', plus(v('x'), num(1)))]),
                              P(v('x'))], pop))
-        # a name that is also a macro (`define step 10`) re-used as a loop's index or light variable:
-        # inside the loop the name is the loop's variable
+        # a name that is also a macro (`define step 10`) re-used as a routine's parameter, and the
+        # parameter as a loop's count, bound and body operand: inside the routine the name is the
+        # parameter (as a loop's own variable the name is rejected: a macro is a constant)
         out.append(([('define_macro', 'step', num(10)),
-                     ('repeat', ('range', 'step', num(1), num(3)), [P(v('step'))])], pop))
+                     ('define', 'f', ['step'],
+                      [('repeat', ('range', 'i', num(1), v('step')), [P(v('i')), P(v('step'))])]),
+                     ('call', 'f', [num(3)], False), P(('macro', 'step'))], pop))
         out.append(([('define_macro', 'n', num(2)),
-                     ('repeat', ('interp', ('macro', 'n'), 'n', num(5), num(6)), [P(v('n'))])], pop))
-        out.append(([('define_macro', 'lamp', ('str', 'x')),
-                     ('repeat', ('all', 'lamp', None), [P(v('lamp'))])], pop))
-        out.append(([('define_macro', 'angle', num(7)),
-                     ('repeat', ('cycle', num(3), 'angle', None), [P(v('angle'))])], pop))
+                     ('define', 'f', ['n'],
+                      [('repeat', ('interp', v('n'), 'k', num(5), num(6)), [P(v('k')), P(v('n'))])]),
+                     ('call', 'f', [num(3)], False), P(('macro', 'n'))], pop))
+        out.append(([('define', 'f', ['angle'],
+                      [('repeat', ('cycle', num(3), 'a', v('angle')), [P(v('a'))]), P(v('angle'))]),
+                     ('define_macro', 'angle', num(7)),
+                     ('call', 'f', [num(30)], False), P(('macro', 'angle'))], pop))
         # while re-tests before every pass; break ends only the innermost loop
         out.append(([('assign', 'y', num(0)),
                      ('repeat', ('while', ('expr', ('bin', '<', v('y'), num(4))), 'y'),
